@@ -182,7 +182,12 @@ func genParseInputs(cfg Config, emit func(src string)) {
 // exhaustive short byte strings over the text-scanner alphabet
 var textAlphabet = []byte("<%>\\=#\"a\n")
 
-func enumTexts(k int, emit func(src string)) {
+// … and over an alphabet with the NUL byte, which the scanner uses as its end-of-input sentinel
+var nulAlphabet = []byte{0, '<', '%', '>', '=', 'a', ' ', '"'}
+
+func enumTexts(k int, emit func(src string)) { enumOver(textAlphabet, k, emit) }
+
+func enumOver(textAlphabet []byte, k int, emit func(src string)) {
 	buf := make([]byte, 0, k)
 	var rec func(n int)
 	rec = func(n int) {
@@ -204,6 +209,12 @@ func enumTexts(k int, emit func(src string)) {
 func init() {
 	corrStreams["lex-text"] = func(cfg Config, emit func(string)) {
 		enumTexts(cfg.N(5, 6), func(s string) { emit("lex " + hx(s)) })
+	}
+	corrStreams["lex-nul"] = func(cfg Config, emit func(string)) {
+		enumOver(nulAlphabet, cfg.N(5, 6), func(s string) { emit("lex " + hx(s)) })
+	}
+	corrStreams["parse-nul"] = func(cfg Config, emit func(string)) {
+		enumOver(nulAlphabet, cfg.N(4, 5), func(s string) { emit("parse " + hx(s)) })
 	}
 	corrStreams["parse-text"] = func(cfg Config, emit func(string)) {
 		enumTexts(cfg.N(4, 6), func(s string) { emit("parse " + hx(s)) })
